@@ -317,6 +317,122 @@ def gen_rd(tier, rng):
     return out
 
 
+def gen_rd_long(tier, rng):
+    """foreign files whose BYTE_ARRAY / FLBA statistics are true bounds LONGER than anything carquet's own builder keeps:
+    values of 250..300 and 70000 bytes that share long prefixes, statistics in the new or the deprecated fields"""
+    out = []
+    k = 60 if tier == "quick" else 600
+    for ci in range(k):
+        huge = (ci % 20 == 0)
+        L = 70000 if huge else rng.choice([250, 255, 256, 257, 258, 300, 513])
+        t = BYTE_ARRAY if huge or rng.random() < 0.75 else FLBA
+        prefix = bytes(rng.choice([0x61, 0x7A, 0x80, 0xFF, 0x00, rng.getrandbits(8)]) for _ in range(8)) * (L // 8 + 1)
+        shared = rng.choice([L - 1, L - 1, 256, 255, 257, L - 20]) if L > 257 else L - 1
+        shared = max(1, min(shared, L - 1))
+
+        def val():
+            if t == FLBA:
+                tail = bytes(rng.choice([0, 1, 0x7F, 0x80, 0xFF]) for _ in range(L - shared))
+                return prefix[:shared] + tail
+            n = rng.choice([shared, shared + 1, L, L, L + 1, 256, 257])
+            tail = bytes(rng.choice([0, 1, 0x61, 0x7F, 0x80, 0xFF]) for _ in range(max(0, n - shared)))
+            return prefix[:min(shared, n)] + tail
+        nrg = rng.choice([1, 2, 3])
+        rgs, datas, allv = [], [], []
+        for _ in range(nrg):
+            data = [val() for _ in range(rng.choice([1, 2, 3]))]
+            mn, mx = bounds(t, data)
+            g = dict(meta=1, stats=1, nv=len(data), nc=0, mn=None, mx=None, omn=None, omx=None, tb=True)
+            if len(mn) == 0 or len(mx) == 0:
+                g.update(stats=0, nc=None)
+            elif rng.random() < 0.5:
+                g.update(mn=mn, mx=mx)
+            else:
+                g.update(omn=mn, omx=mx)
+            rgs.append(g); datas.append(data); allv += data
+        flen = L if t == FLBA else 0
+        file_hex = footer_with_stats(t, flen, rgs).hex()
+        s_txt = ";".join("%d/%d/%d/%s/%s/%s/%s/%s" % (g["meta"], g["stats"], g["nv"], "-" if g["nc"] is None else g["nc"],
+                                                      hx(g["mn"]), hx(g["mx"]), hx(g["omn"]), hx(g["omx"])) for g in rgs)
+        d_txt = ";".join(vals_text(d) for d in datas)
+        mnA, mxA = bounds(t, allv)
+        probes = [mxA, mnA, mxA[:256], mxA[:255], mxA[:257], mnA[:256]] + allv[:2]
+        if t == BYTE_ARRAY:
+            probes += [mxA + b"\x00", mxA[:-1], mxA[:256] + b"\xff", mnA + b"\x01"]
+        else:
+            probes = [p_ for p_ in probes if len(p_) == L]
+        probes = [p_ for p_ in probes if len(p_) > 0]
+        rng.shuffle(probes)
+        for p_ in probes[:2 if huge else 5]:
+            exp = []
+            for g in rgs:
+                pair = (g["mn"], g["mx"]) if g["mn"] else (g["omn"], g["omx"]) if g["omn"] else None
+                exp.append("%d:%d:%d:%d:%s:%s" % (1 if pair else 0, 1 if g["nc"] is not None else 0, 0, g["nv"],
+                                                   pair[0].hex() if pair else "-", pair[1].hex() if pair else "-"))
+            for op in ([EQ, GT, GE] if not huge else [rng.choice([EQ, GT, GE])]) + [rng.randrange(6)]:
+                out.append(("rd %s %d 0 %d %s %d %s %s" % (file_hex, t, op, hx(p_), nrg, s_txt, d_txt),
+                            {"kind": "rd", "tb": [g["tb"] for g in rgs], "nrg": nrg, "cs": exp, "absent": [e.startswith("0:") for e in exp]}))
+    return out
+
+
+def page_batches(t, rng, flen, maxdef, pool):
+    """one page for the page writer: (batches text, values, nulls)"""
+    batches, vals, nulls = [], [], 0
+    allnull = maxdef > 0 and rng.random() < 0.12
+    for _ in range(rng.choice([1, 1, 2])):
+        nv = rng.choice([1, 2, 3, 5])
+        if maxdef > 0 and (allnull or rng.random() < 0.75):
+            defs = [0] * nv if allnull else [rng.choice([maxdef, maxdef, 0]) for _ in range(nv)]
+            nn = sum(1 for d in defs if d == maxdef)
+            nulls += nv - nn
+            dtxt = "".join(str(d) for d in defs)
+        else:
+            nn, dtxt = nv, "-"
+        vs = [rand_value(t, rng, flen, pool=pool) for _ in range(nn)]
+        if t == BYTE_ARRAY:
+            vs = [v[:40] for v in vs]
+        vals += vs
+        batches.append("%s/%s/%d" % (vals_text(vs), dtxt, nv))
+    return ",".join(batches), vals, nulls
+
+
+def gen_pmw(tier, rng):
+    """column indexes built from REAL pages: every page goes through carquet's page writer, whose statistics (or their
+    absence: BYTE_ARRAY / FLBA / BOOLEAN pages, all-NaN pages) and null count feed carquet_column_index_add_page"""
+    out = []
+    k = 2500 if tier == "quick" else 25000
+    for _ in range(k):
+        t = rng.choice([INT32, INT64, FLOAT, DOUBLE, BYTE_ARRAY, BYTE_ARRAY, FLBA, BOOLEAN])
+        flen = rng.choice([1, 3, 16]) if t == FLBA else 0
+        maxdef = rng.choice([0, 1, 1, 1])
+        pool = [rand_value(t, rng, flen or 3) for _ in range(rng.randint(1, 4))]
+        if t == BYTE_ARRAY:
+            pool = [v[:40] for v in pool] + [b""]
+        npage = rng.choice([1, 2, 3, 5])
+        pages = [page_batches(t, rng, flen or 3, maxdef, pool) for _ in range(npage)]
+        idx = rng.randrange(npage)
+        vals = pages[idx][1]
+        mn, mx = bounds(t, vals) if vals else (None, None)
+        ps = probes_for(t, vals, mn, mx, rng, flen or 3)
+        w = {INT32: 4, FLOAT: 4, INT64: 8, DOUBLE: 8, BOOLEAN: 1}.get(t)
+        ps = [p_ for p_ in ps if (w is None or len(p_) == w) and (t != FLBA or len(p_) == flen) and (t != BYTE_ARRAY or len(p_) <= 60)]
+        a = rng.choice(ps) if ps and rng.random() < 0.7 else None
+        b = rng.choice(ps) if ps and rng.random() < 0.7 else None
+        if a is not None and b is not None:
+            if not is_nan(t, a) and not is_nan(t, b) and key(t, a) > key(t, b):
+                a, b = b, a
+            if t == BYTE_ARRAY and len(a) != len(b):
+                a = None
+        for q in (a, b):
+            pass
+        if (a is not None and len(a) == 0) or (b is not None and len(b) == 0):
+            a = b = None                      # an empty query bound cannot be told from "unbounded" through the API
+        out.append(("pmw %d %d %d %s %d %s %s" % (t, flen, maxdef, ";".join(pg[0] for pg in pages), idx,
+                                                 "N" if a is None else hx(a), "N" if b is None else hx(b)),
+                    {"kind": "pmw", "tb": True}))
+    return out
+
+
 def gen_helpers(tier, rng):
     out = []
     k = 10000 if tier == "quick" else 250000
@@ -376,6 +492,25 @@ def gen_helpers(tier, rng):
             qidx = idx if rng.random() < 0.95 else rng.choice([-1, npage, npage + 3])
             out.append(("pm %d %s %d %s %s %s" % (t, ";".join(pages), qidx, qa, qb, "-" if nullp else vals_text(data)),
                         {"kind": "pm", "tb": tb and qidx == idx}))
+    # pages that hold values AND nulls but carry no usable min/max (absent, or zero-length: min = max = ""): absent
+    # statistics mean "might match"; only the caller's is_null_page flag makes a null page
+    for _ in range(300 if tier == "quick" else 3000):
+        t = rng.choice([BYTE_ARRAY, BYTE_ARRAY, FLBA, INT32, DOUBLE])
+        flen = 3 if t == FLBA else 0
+        empties = t == BYTE_ARRAY and rng.random() < 0.5
+        data = [b""] * rng.choice([1, 2]) if empties else [rand_value(t, rng, flen, allow_nan=False) for _ in range(rng.choice([1, 2, 4]))]
+        if t == BYTE_ARRAY and not empties:
+            data = [v[:40] or b"a" for v in data]
+        bound = "e" if empties else rng.choice(["-", "-", "e"])
+        nulls = rng.choice([1, 1, 3, 0])
+        w = {INT32: 4, DOUBLE: 8}.get(t)
+        ps = [p_ for p_ in probes_for(t, data, *bounds(t, data), rng, flen) if (w is None or len(p_) == w) and (t != FLBA or len(p_) == flen) and 0 < len(p_) <= 60]
+        a = rng.choice(ps) if ps and rng.random() < 0.5 else None
+        b = rng.choice(ps) if ps and rng.random() < 0.5 else None
+        if a is not None and b is not None and (len(a) != len(b) or key(t, a) > key(t, b)):
+            b = None
+        out.append(("pm %d %d/%s/%s/0 0 %s %s %s" % (t, nulls, bound, bound, "N" if a is None else hx(a), "N" if b is None else hx(b), vals_text(data)),
+                    {"kind": "pm", "tb": True}))
     # INT96 range [5, 2^32] vs query [6, 6]
     a5, b32, q6 = (5).to_bytes(12, "little"), (2**32).to_bytes(12, "little"), (6).to_bytes(12, "little")
     out.append(("ovl 3 %s %s %s %s %s" % (a5.hex(), b32.hex(), q6.hex(), q6.hex(), vals_text([a5, q6, b32])), {"kind": "ovl", "tb": True}))
@@ -637,6 +772,14 @@ def judge(line, meta, impl, model):
             want = [i for i, m in enumerate(might) if m][:maxidx]
             if got != want or fk != str(len(want)):
                 out.append(("violation", "filter_row_groups returned %s:%s, the might-match row groups capped at %d are %s" % (fk, got, maxidx, want)))
+    elif kind == "pmw":
+        body, _, truth = impl.rpartition(" T=")
+        if model != body and not model.startswith("FAULT"):
+            out.append(("tie", "page-writer + column-index model and implementation differ: impl %s / model %s" % (body[:200], model[:200])))
+        m = kv(body).get("m", "1:1").split(":")
+        if truth == "1" and m[0] == "0" and m[1] != "1":
+            out.append(("violation", "a page written by the page writer and added to the column index holds a value inside the query range "
+                                     "but carquet_column_index_page_might_match says no match (%s)" % kv(body).get("pages", "")[:160]))
     else:
         body, _, truth = impl.rpartition(" T=")
         if model != body and not model.startswith("FAULT"):
@@ -705,7 +848,8 @@ def run(tier):
             cc.append((j["case"], j["meta"]))
         if cc:
             run_cases(rep, drv, run_, cc, "corpus", dist)
-    for name, gen in (("builder", gen_bld), ("page_writer", gen_pw), ("reader", gen_rd), ("helpers", gen_helpers)):
+    for name, gen in (("builder", gen_bld), ("page_writer", gen_pw), ("reader", gen_rd), ("reader_long_stats", gen_rd_long),
+                      ("helpers", gen_helpers), ("page_index_from_pages", gen_pmw)):
         cases = gen(tier, rng)
         run_cases(rep, drv, run_, cases, name, dist)
         rep.sample({"op": name, "case": cases[len(cases) // 3][0][:400]})
@@ -745,8 +889,8 @@ def replay(path):
         for kind, text in res:
             print(kind.upper() + ":", text)
         return 1 if res else 0
-    if meta.get("kind") not in ("bld", "pw", "rd", "cmp", "ovl", "pm"):
-        meta = dict(meta, kind={"builder": "bld", "page_writer": "pw", "reader": "rd"}.get(meta.get("kind"), case.split()[0]))
+    if meta.get("kind") not in ("bld", "pw", "rd", "cmp", "ovl", "pm", "pmw"):
+        meta = dict(meta, kind={"builder": "bld", "page_writer": "pw", "reader": "rd", "reader_long_stats": "rd", "page_index_from_pages": "pmw"}.get(meta.get("kind"), case.split()[0]))
     res = judge(case, meta, out[0], mo[0] if mo else "RUNNER-ERROR none")
     for kind, text in res:
         print(kind.upper() + ":", text)
